@@ -21,6 +21,7 @@ type Cell struct {
 	T   types.Type
 	ID  int
 	Tag string
+	Watch bool
 }
 
 type PtrV struct {
@@ -43,6 +44,7 @@ type MapObj struct {
 	Vals []Value
 	Del  []bool
 	ID   int
+	Owner *accessOwner
 }
 type MapV struct{ M *MapObj }
 
